@@ -8,6 +8,7 @@ three outcomes; that the REAL decoder has no fourth one (a panic) is what lane `
 -/
 import Ldap3V.Lemmas.FramingWF
 import Ldap3V.Lemmas.BerDepth
+import Ldap3V.Lemmas.EnvelopeShape
 namespace Ldap3V
 open Spec
 
@@ -130,11 +131,141 @@ theorem C11_no_descent_below_limit (fuel d : Nat) (b : UInt8) (i1 : Bytes) (hd :
     · exact Or.inl rfl
     · exact Or.inr rfl
 
+/-! ## exact characterisation of the three outcomes
+
+`IsEnvelope`, `IsMsgId`, `OuterArrived`, `LenRead` are in Spec/EnvelopeShape.lean, written from
+RFC 4511 §4.1.1 and the list L1–L7 of liberties the code takes, without reference to `decodeInner`. -/
+
+/-- The decoder yields a frame `(id, op, controls)` consuming `n` bytes IF AND ONLY IF the buffer
+begins with a complete BER element `t` that lber's parser accepts (`parseTag`: definite lengths,
+nesting at most 64 — `C11_depth`; exactly the `Spec.Enc` encodings by C07, plus lber's lenient
+length forms), `t` has the LDAPMessage envelope shape `IsEnvelope t id op controls`, and `n` is
+the size of that element.
+
+The BER layer is stated through the model parser (C07 owns it); for strict X.690 encodings the
+parser-free form is `C11_frame_iff_strict`.  Not stated parser-free: which *non*-X.690 octet
+strings lber also accepts as an element (length octet `80` read as 0, `FF`, more than 8 length
+octets wrapping modulo 2^64, tag number 31 read as a low tag number) — for the outer header alone
+that is `LenRead` / `C11_need_more_iff`. -/
+theorem C11_frame_iff (bs : Bytes) (id : Int) (op : Tlv) (cs : List Control) (n : Nat) :
+    decodeInner bs = .frame id op cs n ↔
+      ∃ t rest, parseTag bs = .ok t rest ∧ IsEnvelope t id op cs ∧ n = bs.length - rest.length :=
+  decodeInner_frame_iff bs id op cs n
+
+/-- … parser-free for strict encodings: if the buffer begins with ANY definite-length X.690
+encoding `pre` (`Spec.Enc`) of a tree `t` at most 64 deep, a frame comes out iff `t` is an envelope,
+and then it consumes exactly `pre`. -/
+theorem C11_frame_iff_strict (t : Tlv) (pre rest : Bytes) (he : Enc t pre) (hd : t.depth ≤ maxDepth)
+    (hl : (pre ++ rest).length < 18446744073709551616)
+    (id : Int) (op : Tlv) (cs : List Control) (n : Nat) :
+    decodeInner (pre ++ rest) = .frame id op cs n ↔ IsEnvelope t id op cs ∧ n = pre.length := by
+  have hp : parseTag (pre ++ rest) = .ok t rest :=
+    pTag_enc t pre _ 0 rest he (by simp at hl; omega) (by simp; omega) (by omega)
+  rw [C11_frame_iff, hp]
+  constructor
+  · rintro ⟨t', r', h, hi, rfl⟩
+    simp only [PR.ok.injEq] at h
+    obtain ⟨rfl, rfl⟩ := h
+    exact ⟨hi, by simp⟩
+  · rintro ⟨hi, rfl⟩
+    exact ⟨t, rest, rfl, hi, by simp⟩
+
+/-- the envelope reader alone, over every tree -/
+theorem C11_envelope_iff (t : Tlv) (id : Int) (op : Tlv) (cs : List Control) :
+    envelopeOf t = some (id, op, cs) ↔ IsEnvelope t id op cs :=
+  envelopeOf_iff t id op cs
+
+/-- (ii) `needMore` is answered exactly when the outer element has not arrived: the identifier
+octet, the length octets (as lber reads them, `LenRead`) or part of the content they announce is
+missing.  Nothing inside the outer element can cause it. -/
+theorem C11_need_more_iff (bs : Bytes) : decodeInner bs = .needMore ↔ ¬ OuterArrived bs :=
+  decodeInner_needMore_iff bs
+
+/-- … i.e. exactly on the proper prefixes of arrived outer elements: every such buffer can be
+completed by further bytes (and by `C11_need_more_iff` only by a non-empty lot), and arrival is
+never undone by further bytes. -/
+theorem C11_need_more_is_proper_prefix (bs : Bytes) :
+    (decodeInner bs = .needMore → ∃ y, y ≠ [] ∧ OuterArrived (bs ++ y)) ∧
+    (∀ y, OuterArrived bs → OuterArrived (bs ++ y)) := by
+  refine ⟨fun h => ?_, fun y h => outerArrived_append bs y h⟩
+  obtain ⟨y, hy⟩ := outerArrived_extend bs
+  refine ⟨y, ?_, hy⟩
+  rintro rfl
+  rw [List.append_nil] at hy
+  exact (C11_need_more_iff bs).mp h hy
+
+/-- (i) a complete outer element that is not an envelope — because its content is not BER that
+lber accepts, or nests deeper than 64, or parses to a tree that is not `IsEnvelope` — is a
+decoding error, never `needMore` and never a frame. -/
+theorem C11_complete_non_envelope_rejected (bs : Bytes) (ha : OuterArrived bs)
+    (hn : ∀ t rest id op cs, parseTag bs = .ok t rest → ¬ IsEnvelope t id op cs) :
+    decodeInner bs = .decodeError := by
+  cases h : decodeInner bs with
+  | needMore => exact absurd ha ((C11_need_more_iff bs).mp h)
+  | decodeError => rfl
+  | frame id op cs n =>
+    obtain ⟨t, rest, hp, hi, _⟩ := (C11_frame_iff bs id op cs n).mp h
+    exact absurd hi (hn t rest id op cs hp)
+
+/-- the strict notion used by `C11_outer_complete_decides` is an instance of arrival -/
+theorem C11_outerComplete_arrived (bs : Bytes) (h : OuterComplete bs) : OuterArrived bs := by
+  obtain ⟨hdr, l, content, extra, n, hl, rfl, hsz, rfl⟩ := h
+  exact ⟨hdr, l, content, extra, rfl, lenRead_of_lenEnc _ l hl hsz⟩
+
+/-- a message ID in the RFC's range, in any zero-padded encoding, is read as itself -/
+theorem C11_msgId_rfc_range (v : Bytes) (h : beVal v < 2147483648) :
+    IsMsgId (.prim 0 2 v) (beVal v : Int) :=
+  ⟨v, rfl, by omega, by omega, by omega⟩
+
 /-! ### non-vacuity (tests): the historical witnesses -/
 example : (match decodeInner [0x30, 0x00] with | .decodeError => true | _ => false) = true := by decide
 example : (match decodeInner [0x30, 0x07, 0x02, 0x01, 0x01, 0x61, 0x02, 0x0a, 0x05] with | .decodeError => true | _ => false) = true := by decide
 example : OuterComplete [0x30, 0x07, 0x02, 0x01, 0x01, 0x61, 0x02, 0x0a, 0x05] :=
   ⟨0x30, [0x07], [0x02, 0x01, 0x01, 0x61, 0x02, 0x0a, 0x05], [], 7, Or.inl ⟨by decide, rfl⟩, rfl, by decide, rfl⟩
 example : NotEnvelope (.cons 0 16 []) := Or.inr (Or.inr (Or.inl ⟨[], rfl, by decide⟩))
+
+/-- `30 00` and `30 03 04 01 41`: arrived, parsed, not envelopes (hypotheses of
+`C11_complete_non_envelope_rejected`) -/
+example : OuterArrived [0x30, 0x00] ∧ parseTag [0x30, 0x00] = .ok (.cons 0 16 []) [] ∧
+    ∀ id op cs, ¬ IsEnvelope (.cons 0 16 []) id op cs := by
+  refine ⟨⟨0x30, [0x00], [], [], rfl, Or.inl ⟨0, by decide, rfl, rfl⟩⟩, rfl, ?_⟩
+  intro id op cs h
+  have := (C11_envelope_iff _ _ _ _).mpr h
+  simp [envelopeOf] at this
+example : OuterArrived [0x30, 0x03, 0x04, 0x01, 0x41] ∧
+    parseTag [0x30, 0x03, 0x04, 0x01, 0x41] = .ok (.cons 0 16 [.prim 0 4 [0x41]]) [] ∧
+    ∀ id op cs, ¬ IsEnvelope (.cons 0 16 [.prim 0 4 [0x41]]) id op cs := by
+  refine ⟨⟨0x30, [0x03], [0x04, 0x01, 0x41], [], rfl, Or.inl ⟨3, by decide, rfl, rfl⟩⟩, rfl, ?_⟩
+  intro id op cs h
+  have := (C11_envelope_iff _ _ _ _).mpr h
+  simp [envelopeOf] at this
+example : (match decodeInner [0x30, 0x03, 0x04, 0x01, 0x41] with | .decodeError => true | _ => false) = true := by decide
+
+/-- proper prefixes: nothing, a lone identifier octet, an unfinished long-form length, a short body -/
+example : ¬ OuterArrived [] ∧ ¬ OuterArrived [0x30] ∧ ¬ OuterArrived [0x30, 0x82, 0x01] ∧
+    ¬ OuterArrived [0x30, 0x03, 0x04, 0x01] := by
+  refine ⟨?_, ?_, ?_, ?_⟩ <;> rw [← C11_need_more_iff] <;> rfl
+
+/-- a BindResponse (success) with message ID 1 and one control "1.2", followed by the first byte
+of the next message: both sides of `C11_frame_iff` -/
+def exBindResp : Bytes :=
+  [0x30, 0x15, 0x02, 0x01, 0x01, 0x61, 0x07, 0x0a, 0x01, 0x00, 0x04, 0x00, 0x04, 0x00,
+   0xa0, 0x07, 0x30, 0x05, 0x04, 0x03, 0x31, 0x2e, 0x32, 0x30]
+def exBindRespOp : Tlv := .cons 1 1 [.prim 0 10 [0x00], .prim 0 4 [], .prim 0 4 []]
+def exBindRespCtl : Tlv := .cons 2 0 [.cons 0 16 [.prim 0 4 [0x31, 0x2e, 0x32]]]
+
+example : parseTag exBindResp = .ok (.cons 0 16 ([] ++ [.prim 0 2 [0x01], exBindRespOp, exBindRespCtl])) [0x30] := rfl
+example : IsEnvelope (.cons 0 16 ([] ++ [.prim 0 2 [0x01], exBindRespOp, exBindRespCtl])) 1 exBindRespOp
+    [⟨none, ⟨[0x31, 0x2e, 0x32], false, none⟩⟩] :=
+  .withControls 0 [] _ _ _ 1 _ ⟨[0x01], rfl, by decide, by decide, by decide⟩ rfl rfl rfl (by decide)
+example : decodeInner exBindResp = .frame 1 exBindRespOp [⟨none, ⟨[0x31, 0x2e, 0x32], false, none⟩⟩] 23 :=
+  (C11_frame_iff _ _ _ _ _).mpr ⟨_, _, rfl,
+    .withControls 0 [] _ _ _ 1 _ ⟨[0x01], rfl, by decide, by decide, by decide⟩ rfl rfl rfl (by decide), rfl⟩
+
+/-- liberties: junk before the message ID is ignored (L2), the ID octets `FF FF FF FF` are read as
+-1 (L4), a trailing `[CONTEXT 10]` is dropped (L5) -/
+example : IsEnvelope (.cons 3 16 ([.prim 0 4 [0x41]] ++ [.prim 0 2 [0xFF, 0xFF, 0xFF, 0xFF], .prim 1 2 [], .prim 2 10 [0x31]]))
+    (-1) (.prim 1 2 []) [] :=
+  .adTrailer 3 _ _ _ _ (-1) ⟨_, rfl, by decide, by decide, by decide⟩ rfl rfl
 
 end Ldap3V
